@@ -67,6 +67,33 @@ function firstWhy(parser, d, o) {
   }
 }
 
+// constructor names of every runtype reachable from a parser (what was actually emitted)
+function emittedClasses(parser) {
+  const out = new Set();
+  const seen = new Set();
+  const walk = (x, depth) => {
+    if (x === null || typeof x !== "object" || seen.has(x) || depth > 80) return;
+    seen.add(x);
+    if (Array.isArray(x)) {
+      for (const y of x) walk(y, depth + 1);
+      return;
+    }
+    const cn = x.constructor && x.constructor.name;
+    if (cn && /Runtype$/.test(cn)) out.add(cn);
+    if (typeof x.refName === "string" && typeof x.getNamedRuntypes === "function") {
+      try {
+        walk(x.getNamedRuntypes()[x.refName], depth + 1);
+      } catch {}
+      return;
+    }
+    if (x instanceof RegExp || x instanceof Map || x instanceof Set) return;
+    for (const k of Object.keys(x)) walk(x[k], depth + 1);
+  };
+  walk(parser, 0);
+  return out;
+}
+const UNPRINTABLE_CLASSES = ["DateRuntype", "BigIntRuntype", "MapRuntype", "SetRuntype", "TypedArrayRuntype", "FunctionRuntype"];
+
 export async function run(ctx) {
   const recPath = ctx.outPath ? ctx.outPath + ".records.jsonl" : null;
   const fd = recPath ? fs.openSync(recPath, "w") : null;
@@ -80,7 +107,11 @@ export async function run(ctx) {
       if (!parser) continue;
       kindsHistogram(ctx, prog.env, core);
       const kinds = coreKinds(prog.env, core);
-      const expectThrow = [...kinds].some((k) => UNPRINTABLE.has(k));
+      // what JSON Schema cannot express is decided on the emitted runtypes (a type operator that lost
+      // a Date / typed array on the way is C01's finding, not a printing defect)
+      const emitted = emittedClasses(parser);
+      const expectThrow = UNPRINTABLE_CLASSES.some((c) => emitted.has(c));
+      if (expectThrow !== [...kinds].some((k) => UNPRINTABLE.has(k))) ctx.count("emitted_kinds_differ_from_reference");
       const usesFormats = kinds.has("fmt");
       const recursive = kinds.has("recursive");
       const modes = [{ mode: "flat" }, ...CONFIGS.map((cfg, i) => ({ mode: "contextual", cfg, ci: i }))];
